@@ -20,7 +20,7 @@ pub fn replay(prop: &str, line: &str, em: &mut Emitter) {
     match toks[0] {
         "tpkt_read" | "x224_read" | "tpkt_tls" => c13::run_case(&toks, em),
         "tpkt_write" | "x224_write" => c14::run_case(&toks, em),
-        "blit" | "blitz" => c19::run_case(&toks, em),
+        "blit" | "blitz" | "blit16" => c19::run_case(&toks, em),
         "msg_wr" | "msg_rd" | "msg_rt" => c18::run_case(&toks, em),
         op if op.starts_with("per_") => per::run_case(&toks, em),
         "gsess" => gsess::run_case(&toks, em),
@@ -31,7 +31,7 @@ pub fn replay(prop: &str, line: &str, em: &mut Emitter) {
         "strict" => { let line = toks.join(" "); em.case(&line, move || crate::common::Obs::new("ok".into()).nt(true).tag("strict")); }
         "seal" => c16::run_case(&toks, em),
         "ntlm_auth" | "ts_chal" | "ts_validate" => c15::run_case(&toks, em),
-        "x224_conn" | "gcc_ccr" | "lic" | "mcs_conn" | "sec_conn" => c05::run_case(&toks, em),
+        "x224_conn" | "x224_stream" | "gcc_ccr" | "lic" | "mcs_conn" | "sec_conn" => c05::run_case(&toks, em),
         _ => { let _ = prop; eprintln!("unknown op {}", toks[0]); }
     }
 }
